@@ -21,7 +21,11 @@ func scriptSx(script []HostScript) sx.V {
 			if b.Err {
 				bs = append(bs, sx.L())
 			} else {
-				bs = append(bs, sx.L(sx.I(int64(b.Status)), kvs(b.Hdrs), sx.S(b.Body)))
+				if b.Enc != "" {
+					bs = append(bs, sx.L(sx.I(int64(b.Status)), kvs(b.Hdrs), sx.S(b.Body), sx.S(b.Enc)))
+				} else {
+					bs = append(bs, sx.L(sx.I(int64(b.Status)), kvs(b.Hdrs), sx.S(b.Body)))
+				}
 			}
 		}
 		out = append(out, sx.L(sx.S(hs.Host), sx.L(bs...)))
@@ -37,7 +41,7 @@ func scriptFromSx(v sx.V) []HostScript {
 			if len(b.List()) == 0 {
 				h.Bs = append(h.Bs, Behaviour{Err: true})
 			} else {
-				h.Bs = append(h.Bs, Behaviour{Status: int(b.N(0).Int()), Hdrs: unkvs(b.N(1)), Body: b.N(2).Str()})
+				h.Bs = append(h.Bs, Behaviour{Status: int(b.N(0).Int()), Hdrs: unkvs(b.N(1)), Body: b.N(2).Str(), Enc: b.N(3).Str()})
 			}
 		}
 		out = append(out, h)
